@@ -241,8 +241,27 @@ fn programs(tier: Tier) -> (Vec<E>, J) {
         ];
         all.extend(ctx);
     }
+    // pumped programs: long arrays, objects with many entries (distinct and duplicated keys, every
+    // key form in turn), deep nesting, long strings and keys, long runs of trailing-comma containers
+    let mut pumped = 0usize;
+    for n in [7usize, 8, 9, 15, 16, 17, 31, 32, 33, 63, 64, 65, 100, 127, 128, 129, 200] {
+        let items: Vec<E> = (0..n).map(|i| rich[i % rich.len()].clone()).collect();
+        all.push(E::Arr(items.clone(), n % 2 == 0));
+        let forms = [KeyForm::Lit("a"), KeyForm::Paren("b"), KeyForm::Expr("a"), KeyForm::Lit("b"), KeyForm::Expr("b")];
+        all.push(E::Obj(items.iter().enumerate().map(|(i, x)| (forms[i % forms.len()].clone(), x.clone())).collect(), n % 2 == 1));
+        all.push(E::Arr((0..n).map(|_| E::Arr(vec![E::Obj(vec![], false)], true)).collect(), true));
+        pumped += 3;
+    }
+    for depth in [5usize, 8, 16, 32, 64] {
+        let mut v = E::Lit("1");
+        for d in 0..depth {
+            v = if d % 2 == 0 { E::Arr(vec![v], d % 3 == 0) } else { E::Obj(vec![(KeyForm::Lit("a"), v)], d % 3 == 1) };
+        }
+        all.push(v);
+        pumped += 1;
+    }
     all.dedup();
-    let bounds = json!({"small_shape_family": {"max_nodes_completed": small_n, "leaves": ["null", "1"], "key_forms": ["\"a\"", "KA.clone()"]}, "shape_family": {"max_nodes_completed": shape_n, "programs": shape_count, "next_size_not_covered": skipped, "leaves": ["null", "1", "\"s\""], "key_forms": ["\"a\"", "(\"a\")", "KA.clone()", "\"b\""], "max_depth": 3},
+    let bounds = json!({"pumped_programs": {"programs": pumped, "array_and_object_lengths": [7, 8, 9, 15, 16, 17, 31, 32, 33, 63, 64, 65, 100, 127, 128, 129, 200], "nesting_depths": [5, 8, 16, 32, 64]},"small_shape_family": {"max_nodes_completed": small_n, "leaves": ["null", "1"], "key_forms": ["\"a\"", "KA.clone()"]}, "shape_family": {"max_nodes_completed": shape_n, "programs": shape_count, "next_size_not_covered": skipped, "leaves": ["null", "1", "\"s\""], "key_forms": ["\"a\"", "(\"a\")", "KA.clone()", "\"b\""], "max_depth": 3},
         "leaf_family": {"literal_kinds": rich.len(), "contexts": 19}});
     (all, bounds)
 }
@@ -270,7 +289,7 @@ fn write_workspace(dir: &Path, progs: &[E], ncrates: usize) -> std::io::Result<V
         )?;
         // line 1..HEADER are the header; program i (global index lo + j) is on line HEADER + 1 + j
         let mut src = String::new();
-        src.push_str("#![recursion_limit = \"512\"]\n#![allow(unused, clippy::all)]\nuse json_syntax::{json, object::Key, Parse, Value};\nfn main() {\n    let KA: Key = Key::from(\"a\"); let KB: Key = Key::from(\"b\");\n    let mut progs: Vec<(usize, Value, &str)> = Vec::new();\n");
+        src.push_str("#![recursion_limit = \"16384\"]\n#![allow(unused, clippy::all)]\nuse json_syntax::{json, object::Key, Parse, Value};\nfn main() {\n    let KA: Key = Key::from(\"a\"); let KB: Key = Key::from(\"b\");\n    let mut progs: Vec<(usize, Value, &str)> = Vec::new();\n");
         for (j, p) in progs[lo..hi].iter().enumerate() {
             let mut r = String::new();
             p.rust(&mut r);
@@ -444,7 +463,7 @@ fn main() {
         std::fs::write(dir.join("m00/Cargo.toml"), format!("[package]\nname = \"m00\"\nversion = \"0.1.0\"\nedition = \"2021\"\n\n[dependencies]\njson-syntax = {{ path = \"{}\" }}\n", repo())).unwrap();
         std::fs::write(
             dir.join("m00/src/main.rs"),
-            format!("#![recursion_limit = \"512\"]\n#![allow(unused)]\nuse json_syntax::{{json, object::Key, Parse, Value}};\nfn main() {{\n    let KA: Key = Key::from(\"a\"); let KB: Key = Key::from(\"b\");\n    let v = {rust};\n    let w = Value::parse_str({text:?}).unwrap().0;\n    if v != w {{ println!(\"macro built {{}} but the text parses to {{}}\", v, w); std::process::exit(1); }}\n}}\n"),
+            format!("#![recursion_limit = \"16384\"]\n#![allow(unused)]\nuse json_syntax::{{json, object::Key, Parse, Value}};\nfn main() {{\n    let KA: Key = Key::from(\"a\"); let KB: Key = Key::from(\"b\");\n    let v = {rust};\n    let w = Value::parse_str({text:?}).unwrap().0;\n    if v != w {{ println!(\"macro built {{}} but the text parses to {{}}\", v, w); std::process::exit(1); }}\n}}\n"),
         )
         .unwrap();
         let _ = std::fs::copy(format!("{}/Cargo.lock", repo()), dir.join("Cargo.lock"));
